@@ -119,7 +119,43 @@ def gen(rng, tier):
             c["pre"] = rng.choice(["none", "none", "none", "empty"])     # an empty placeholder file (mkstemp style) may exist
             c["rel"] = rng.random() < 0.25       # path given RELATIVE to a working directory entered after nir was imported
         cases.append(c)
+    # a path that is rewritten very many times (a training loop that checkpoints to one file): every write is followed by a read;
+    # nothing may accumulate from write to write (oracle only: the history is too long to be worth a model term)
+    cases.append({"kind": "long", "n": 1200 if tier == "quick" else 5000, "target": rng.choice(["str", "path"])})
     return cases
+
+
+def run_long(c):
+    import nir
+    import nir.serialization
+    tmpdir = tempfile.mkdtemp(prefix="nirverif_c15_")
+    p = os.path.join(tmpdir, "checkpoint.nir")
+    tgt = p if c["target"] == "str" else pathlib.Path(p)
+    fail = None
+    size0 = None
+    try:
+        for i in range(c["n"]):
+            g = nir.NIRGraph({"s": nir.Scale(np.array([float(i), 1.0], dtype="float32"))}, [("s", "s")])
+            try:
+                with quiet():
+                    nir.write(tgt, g)
+                    back = nir.read(tgt)
+                    nir.serialization.read_version(tgt)
+            except BaseException as e:  # noqa: BLE001
+                fail = f"write #{i + 1} to one path, then read: raised {type(e).__name__}: {str(e)[:120]}"
+                break
+            if list(back.nodes) != ["s"] or back.nodes["s"].scale.tobytes() != g.nodes["s"].scale.tobytes() or [tuple(e) for e in back.edges] != [("s", "s")]:
+                fail = f"after write #{i + 1} to one path read returned something else than the graph just written"
+                break
+            sz = os.path.getsize(p)
+            if size0 is None:
+                size0 = sz
+            elif sz != size0:
+                fail = f"the file of the same one-node graph has {sz} bytes after write #{i + 1} and had {size0} after the first: residue of earlier writes"
+                break
+    finally:
+        shutil.rmtree(tmpdir, ignore_errors=True)
+    return Outcome(None, fail, True, ("long", c["n"], c["target"]))
 
 
 def nfds():
@@ -129,6 +165,8 @@ def nfds():
 def run(c):
     import nir
     import nir.serialization
+    if c.get("kind") == "long":
+        return run_long(c)
     tmpdir = tempfile.mkdtemp(prefix="nirverif_c15_")
     fobj = None
     cwd0 = os.getcwd()
